@@ -21,6 +21,9 @@ def check(prog, rep):
     Z.check_flatten_order(prog, rep, fs, entry)
     Z.check_positional_id_use(prog, rep, fs, entry)
     Z.check_crosstab_keys(prog, rep, m, 'crosstab')
+    from ..sharedrules import check_values_keep_dtype
+    check_values_keep_dtype(prog, rep, 'Z3-dtype', pub, 'crosstab')
+    rep.floor('Z3-dtype', 1)
     Z.check_crosstab_merge(prog, rep, m, 'crosstab')
     Z.check_strides(prog, rep, m, 'crosstab')      # the stride routine (its cursor is decided there, semantically)
     Z.check_alignment(prog, rep, m, 'crosstab', 'crosstab[dask]')       # the blocks that are paired are the aligned ones
